@@ -52,6 +52,88 @@ def loop_fingerprints():
     return out, other
 
 
+# Loops whose body is ALSO translated on every run (Gen/NttGen.lean, Gen/ParZeroGen.lean) and for which a theorem of Props/C12.lean
+# states, about the TRANSLATED function that contains the loop, that its lifted loop body run over any permutation of the
+# iteration starts returns what the translated function returns (and that the starts are the hand model's).  For these the text the
+# footprint was written from no longer matters once that theorem has been re-proved on the regenerated definition: a differing
+# fingerprint is recorded in the evidence as superseded (same idea as tools/handmodels.py: BRIDGED).  Exact scope: index in
+# C12_loops.json -> (file, the ONE function that must contain the loop, theorems).  Superseded only if (a) the number and order of
+# `#pragma omp` lines, their files and the pragma texts are all unchanged (only the sha of the loop statement differs), (b) the loop
+# is the only OpenMP construct of the current definition of that function (so the theorem about the function's translated loop is a
+# theorem about THIS loop), (c) every listed theorem is among the discharged obligations of a proof phase without broken obligation.
+# Not listed (fingerprint stays binding): the NTT and Merkle loops (their any-order theorems carry shape hypotheses or are stated
+# per loop body, not per function).
+LOOP_BRIDGED = {
+    0: ("goldilocks_base_field.cpp", r"Goldilocks::parcpy", ["C12_generated_parcpy_any_order"]),
+    1: ("goldilocks_base_field.cpp", r"Goldilocks::parSetZero", ["C12_generated_parSetZero_any_order"]),
+}
+
+
+def loop_in_function(fn, name_re):
+    """True iff the current source file `fn` has exactly one definition matching `name_re` and that definition contains exactly
+    one `#pragma omp` line (comments stripped)"""
+    import handmodels
+    try:
+        text = open(os.path.join(SRC, fn), errors="replace").read()
+    except OSError:
+        return False
+    defs = handmodels.functions(text, name_re)
+    if len(defs) != 1:
+        return False
+    return len(re.findall(r"#\s*pragma\s+omp\b", defs[0][1])) == 1
+
+
+def loop_owner_index(fn, name_re):
+    """index (among the `#pragma omp` lines of ALL source files, in the order of loop_fingerprints) of the pragma that lies inside the
+    definition matching `name_re` of file `fn`, or None"""
+    import handmodels
+    idx = 0
+    for f in sorted(os.listdir(SRC)):
+        if not (f.endswith(".cpp") or f.endswith(".hpp")):
+            continue
+        text = open(os.path.join(SRC, f), errors="replace").read()
+        ms = list(re.finditer(r"^[ \t]*#pragma omp[^\n]*\n", text, re.M))
+        if f == fn:
+            # locate the definition in the raw text: the function's normalised text starts at its line and ends at its closing brace
+            st = handmodels.strip_comments(text)
+            # strip_comments keeps no offsets: count the pragmas that precede the definition in the comment-free text instead
+            dm = None
+            for m in re.finditer(r"(?<![\w:~])(" + name_re + r")\s*\(", st):
+                # a definition: the matching ')' is followed by '{'
+                i, depth, j = m.end() - 1, 0, m.end() - 1
+                while j < len(st):
+                    if st[j] == "(":
+                        depth += 1
+                    elif st[j] == ")":
+                        depth -= 1
+                        if depth == 0:
+                            break
+                    j += 1
+                if re.match(r"\s*(const\s*)?\{", st[j + 1:j + 40]):
+                    dm = (m.start(), j + 1)
+                    break
+            if dm is None:
+                return None
+            b = st.find("{", dm[1])
+            depth, e = 0, b
+            while e < len(st):
+                if st[e] == "{":
+                    depth += 1
+                elif st[e] == "}":
+                    depth -= 1
+                    if depth == 0:
+                        break
+                e += 1
+            before = len(re.findall(r"^[ \t]*#pragma omp[^\n]*\n", st[:dm[0]], re.M))
+            inside = len(re.findall(r"^[ \t]*#pragma omp[^\n]*\n", st[dm[0]:e + 1], re.M))
+            total = len(re.findall(r"^[ \t]*#pragma omp[^\n]*\n", st, re.M))
+            if inside != 1 or total != len(ms):      # a pragma inside a comment would shift the count: refuse
+                return None
+            return idx + before
+        idx += len(ms)
+    return None
+
+
 def with_threads(line, t):
     toks = line.split()
     pre = ""
@@ -115,7 +197,7 @@ def run(tier, seed):
                        "location is written by at most one iteration and read by none other (data-race freedom)",
                        "poseidon hash calls inside the Merkle loops use per-iteration stack buffers only (observed by TSan)"]
     st = run_gen()
-    standard_proof_phase(res, MODULE, "C12_", st, ["Scalar", "NttGen", "PosScalar", "PosAvx2", "PosAvx512", "LinearHashGen", "MerkleGen"],
+    standard_proof_phase(res, MODULE, "C12_", st, ["Scalar", "NttGen", "ParZeroGen", "PosScalar", "PosAvx2", "PosAvx512", "LinearHashGen", "MerkleGen"],
                          thorough=(tier == "thorough"))
     # ---- (1) the loops the footprints were written from
     fps, other = loop_fingerprints()
@@ -126,14 +208,25 @@ def run(tier, seed):
     kn = [(k["file"], k["pragma"], k["sha"]) for k in known]
     cur = [(f, p, h) for f, p, h, _ in fps]
     if kn != cur:
-        lines = []
+        lines, superseded = [], []
+        proofs_ok = not res.broken           # translation, build, audit, axioms of Props/C12.lean all fine
+        same_shape = len(kn) == len(cur) and all(a[:2] == b[:2] for a, b in zip(kn, cur))
         for i in range(max(len(kn), len(cur))):
             a = kn[i] if i < len(kn) else None
             b = cur[i] if i < len(cur) else None
             if a != b:
                 fam = known[i]["family"] if i < len(known) else "?"
+                br = LOOP_BRIDGED.get(i)
+                if (br and proofs_ok and same_shape and br[0] == b[0] and all(t in res.discharged for t in br[2])
+                        and loop_in_function(br[0], br[1]) and loop_owner_index(br[0], br[1]) == i):
+                    superseded.append("loop #%d (%s, the parallel loop of %s): text differs from the footprint model's reference; %s re-proved on the "
+                                      "regenerated loop body" % (i, fam, br[1], ", ".join(br[2])))
+                    continue
                 lines.append("loop #%d (%s, footprint theorem %s): expected %s, current source has %s" % (i, fam, FAMILY_THEOREM.get(fam, "?"), a, b))
-        res.broken.append(("parallel loop differs from the loop the footprint model was written from", "\n".join(lines[:12])))
+        if superseded:
+            res.extra["parallel_loops_superseded"] = superseded
+        if lines:
+            res.broken.append(("parallel loop differs from the loop the footprint model was written from", "\n".join(lines[:12])))
     for t in set(FAMILY_THEOREM.values()):
         if t not in res.obligations:
             res.broken.append(("footprint theorem %s missing from Props/C12.lean" % t, ""))
